@@ -230,6 +230,9 @@ func (rg *vC17RaftRig) agreedPeers(d time.Duration) []int {
 	for {
 		var ref []int
 		ok := true
+		if len(rg.runningList()) == 0 {
+			return nil // nobody left to ask
+		}
 		for i := 0; i < vc17NPeers; i++ {
 			if !rg.running(i) {
 				continue
@@ -462,7 +465,13 @@ func vC17RunRaft(c *vC17Case) (obs *vC17Obs, term string, panicked interface{}) 
 		}
 		for i := 0; i < vc17NPeers; i++ {
 			if rg.running(i) && !vc17In(after, i) {
-				vc17WaitCh(rg.peers[i].cl.Done(), 40*time.Second)
+				if !vc17WaitCh(rg.peers[i].cl.Done(), 40*time.Second) {
+					// the removed peer still reports itself a member: hashicorp/raft sends the entry to a removed server on a
+					// best-effort basis only (the stated assumption of this property); such a run says nothing
+					if ps, err := rg.peers[i].rec.Consensus.Peers(bg); err == nil && vc17In(vIdxList(ps), i) {
+						return nil, "", nil
+					}
+				}
 			}
 		}
 		oo := vC17OpObs{Err: operr != nil, Entries: []vC17Entry{}, Peers: after}
